@@ -46,7 +46,7 @@ def run_case(chk, r, root, n, in_parts, npart, mode, comp, prior, dup, tag):
             pn = {"smaller": max(1, npart - 1), "larger": npart + 3}[prior]
             dd.from_pandas(make_frame(r, 3 * pn, False), npartitions=1).pack_partitions_to_parquet(path, filesystem=fs, npartitions=pn, p=6)
         ddf = dd.from_pandas(df, npartitions=in_parts)
-        mark_opens, mark_moves = len(fs.opens), len(fs.moves)
+        mark_opens, mark_moves, mark_calls = len(fs.opens), len(fs.moves), len(fs.calls)
         tf = packfs.tempdir_format(mode, work)
         for d in ("scratch_u", "scratch_p"):
             os.makedirs(os.path.join(work, d), exist_ok=True)      # the user's scratch area exists beforehand
@@ -110,6 +110,41 @@ def run_case(chk, r, root, n, in_parts, npart, mode, comp, prior, dup, tag):
                 chk.violation(f"pack_to_parquet/renumbering-differs-from-model/{mode}",
                               dict(rep, non_empty_partitions=non_empty, moves_made=made, model_moves=model_moves, final_parts=m), size=n); return
             chk.count("renumbering:moves=" + str(min(len(made), 3)) + ("+" if len(made) > 3 else ""))
+        # the whole protocol against the Lean model `PackProto.run`: cells (which input partition wrote a sub-part for which output
+        # partition) and the order of the concatenation tasks are read off the call log, the model's final tree must be the real one
+        def tmp_no(pth):
+            d = os.path.dirname(pth)
+            if mode == "inside":
+                return part_no(d) if d.startswith(path) else None
+            b = os.path.basename(d)
+            return int(b.split("part")[1].lstrip(".-")) if b.startswith("part") and "scratch" in d else None
+        cells = {}
+        for pth, md in fs.opens[mark_opens:]:
+            b = os.path.basename(pth)
+            if "w" in md and b.startswith("part") and b.endswith(".parquet") and not b.startswith("part.") and tmp_no(pth) is not None:
+                cells[(tmp_no(pth), int(b[4:-8]))] = 1
+        order = []
+        for nm, pth in fs.calls[mark_calls:]:
+            if nm == "rm":
+                i = part_no(pth) if mode == "inside" else (tmp_no(pth + "/x") if "scratch" in pth else None)
+                if i is not None and i not in order:
+                    order.append(i)
+        n_in = ddf.npartitions
+        cell_rows = [[cells.get((i, j), 0) for j in range(n_in)] for i in range(npart)]
+        pr = 0 if not prior else {"smaller": max(1, npart - 1), "larger": npart + 3}[prior]
+        line = f"packproto {('inside', 'outside-uuid', 'outside-plain').index(mode)} {int(bool(prior))} {npart} {n_in} {tok(cell_rows)} {tok(order)} {pr}"
+        pm = untok(drive([line])[0])
+        if not isinstance(pm, list) or sorted(order) != list(range(npart)):
+            chk.tie_broken(f"correspondence C10 protocol: model rejects / concatenation order not observed: {line[:300]} -> {str(pm)[:100]}")
+        else:
+            m_place, m_tmp, m_subs, m_files, m_uuid, m_meta, m_cmeta, m_stale = pm
+            real = dict(placeholders=sorted(int(d.split(".")[1]) for d in dirs if d.startswith("part.") and d.count("/") == 0), leftovers_outside=len(outside),
+                        files=sorted(int(f.split(".")[1]) for f in partfiles), meta="_metadata" in files, cmeta="_common_metadata" in files)
+            model = dict(placeholders=sorted(m_place), leftovers_outside=len(m_tmp) + len(m_subs) + int(m_uuid), files=sorted(e[0] for e in m_files),
+                         meta=bool(m_meta), cmeta=bool(m_cmeta))
+            if real != model or sorted(e[1] for e in m_files) != non_empty:
+                chk.violation(f"pack_to_parquet/final-tree-differs-from-model/{mode}", dict(rep, impl=real, model=model, model_line=line[:300]), size=n); return
+            chk.count("protocol-model-compared")
         chk.nontriv(hash((tag, n, in_parts, npart, mode, comp, prior, dup)))
         chk.count("mode:" + mode); chk.count("empty-output-partitions:" + ("yes" if m < npart else "no")); chk.count("prior:" + str(prior))
     finally:
